@@ -9,6 +9,7 @@ import (
 
 	"github.com/smallnest/rpcx/client"
 	"github.com/smallnest/rpcx/protocol"
+	"github.com/smallnest/rpcx/share"
 )
 
 func init() {
@@ -17,6 +18,7 @@ func init() {
 		"{ok, service error, connection lost, cancelled, deadline} (exhaustive up to the retry bound in thorough, sampled in quick), for Call and for SendRaw; "+
 		"Failbackup with scripted dispatch failures and completion orders; direct oracle: delivery bound, success iff the last delivery was answered ok (and the reply is that delivery's), "+
 		"non-nil error otherwise, no attempt after service error / cancel / deadline, Failtry same server, Failover different consecutive servers; every case replayed on the Lean model; "+
+		"plus, end to end with REAL clients and real servers that do not answer before the caller's deadline / cancellation: exactly one delivery for Call and SendRaw in every fail mode; "+
 		"non-trivial = at least one failing delivery or dial; distinct = distinct input line",
 		runC10)
 }
@@ -292,6 +294,7 @@ func runC10(o *Out, r *rand.Rand) {
 		}
 	}
 	c10Backup(o, r)
+	c10RealDeadline(o, r)
 }
 
 // ---- Failbackup ------------------------------------------------------------------------
@@ -451,5 +454,114 @@ func c10BackupCase(o *Out, go1, go2 bool, o1, o2 fakeOutcome, order int) {
 	}
 	if res == "nilNoReply" {
 		o.Violate("c10.backup.untruthful-success", "Failbackup returned a nil error but no attempt was answered successfully", rp)
+	}
+}
+
+// c10RealDeadline: the fail-mode contract end to end – a REAL rpcx client under the discovery client,
+// real servers whose handler does not answer before the caller's deadline (or before the caller
+// cancels).  A cancelled context or an expired deadline ends the call at once: the request is
+// delivered once, whatever the fail mode and the number of retries, for Call and for SendRaw.
+func c10RealDeadline(o *Out, r *rand.Rand) {
+	type cfg struct {
+		mode    client.FailMode
+		retries int
+		raw     bool
+		cancel  bool
+		servers int
+	}
+	var cfgs []cfg
+	for _, mode := range []client.FailMode{client.Failtry, client.Failover, client.Failfast} {
+		for _, raw := range []bool{false, true} {
+			cfgs = append(cfgs, cfg{mode, 1 + r.Intn(3), raw, r.Intn(2) == 0, 1 + r.Intn(2)})
+		}
+	}
+	if thorough() {
+		for _, mode := range []client.FailMode{client.Failtry, client.Failover} {
+			for _, raw := range []bool{false, true} {
+				for _, cancel := range []bool{false, true} {
+					cfgs = append(cfgs, cfg{mode, 3, raw, cancel, 2})
+				}
+			}
+		}
+	}
+	for ci, c := range cfgs {
+		var rigs []*srvRig
+		var pairs []*client.KVPair
+		for k := 0; k < c.servers; k++ {
+			rig, err := newSrvRig(srvOpts{})
+			if err != nil {
+				o.Violate("srv.rig", "cannot start the server: "+err.Error(), nil)
+				return
+			}
+			rigs = append(rigs, rig)
+			pairs = append(pairs, &client.KVPair{Key: "tcp@" + rig.addr})
+		}
+		id := 7700000 + ci
+		var gates []chan struct{}
+		for _, rig := range rigs {
+			g, _ := rig.gate(id)
+			gates = append(gates, g)
+		}
+		d, _ := client.NewMultipleServersDiscovery(pairs)
+		opt := client.DefaultOption
+		opt.Retries = c.retries
+		opt.SerializeType = protocol.JSON
+		opt.Heartbeat = false
+		xc := client.NewXClient("Svc", c.mode, client.RoundRobin, d, opt)
+		ctx, cancel := context.WithTimeout(context.Background(), 150*time.Millisecond)
+		if c.cancel {
+			ctx, cancel = context.WithCancel(context.Background())
+			time.AfterFunc(150*time.Millisecond, cancel)
+		}
+		args := &SArgs{ID: id, Mode: "ok"}
+		var err error
+		start := time.Now()
+		if c.raw {
+			req := protocol.NewMessage()
+			req.SetMessageType(protocol.Request)
+			req.SetSerializeType(protocol.JSON)
+			req.SetSeq(uint64(900000 + ci))
+			req.ServicePath, req.ServiceMethod = "Svc", "Do"
+			req.Payload, _ = share.Codecs[protocol.JSON].Encode(args)
+			_, _, err = xc.SendRaw(ctx, req)
+		} else {
+			var reply SReply
+			err = xc.Call(ctx, "Do", args, &reply)
+		}
+		took := time.Since(start)
+		cancel()
+		time.Sleep(30 * time.Millisecond)
+		deliveries := 0
+		for _, rig := range rigs {
+			deliveries += rig.invocations(id)
+		}
+		for _, g := range gates {
+			close(g)
+		}
+		xc.Close()
+		for _, rig := range rigs {
+			rig.close()
+		}
+		what := "Call"
+		if c.raw {
+			what = "SendRaw"
+		}
+		how := "deadline expired"
+		if c.cancel {
+			how = "context cancelled"
+		}
+		o.Eval(fmt.Sprintf("real-deadline %s mode=%v retries=%d cancel=%v servers=%d", what, c.mode, c.retries, c.cancel, c.servers), true)
+		o.Count("real-deadline." + what)
+		rp := map[string]any{"operation": what, "fail_mode": fmt.Sprint(c.mode), "retries": c.retries, "servers": c.servers, "ended_by": how,
+			"deliveries": deliveries, "returned": fmt.Sprint(err), "took_ms": took.Milliseconds()}
+		if err == nil {
+			o.Violate("c10.real.success-without-answer", fmt.Sprintf("%s returned nil although no server answered before the %s", what, how), rp)
+			return
+		}
+		if deliveries != 1 {
+			o.Violate("c10.real.redelivered-after-context-ended", fmt.Sprintf("%s in %v mode with %d retries: the request reached servers %d times although the caller's %s while the first attempt was unanswered (want exactly 1)",
+				what, c.mode, c.retries, deliveries, how), rp)
+			return
+		}
 	}
 }
